@@ -324,7 +324,9 @@ class DeltaEnergyController(IterationController):
 
         inclvl = False
         Eval = energy.value
-        rel = abs(self._Eold-Eval)/max(abs(self._Eold), abs(Eval))
+        norm = max(abs(self._Eold), abs(Eval))
+        # both energies exactly zero (e.g. start at position 0): no change
+        rel = abs(self._Eold-Eval)/norm if norm != 0 else 0.
         if self._itcount > 0:
             if rel < self._tol_rel_deltaE:
                 inclvl = True
